@@ -1929,6 +1929,9 @@ class SQLiteDDLCompiler(compiler.DDLCompiler):
 
         whereclause = index.dialect_options["sqlite"]["where"]
         if whereclause is not None:
+            whereclause = coercions.expect(
+                roles.DDLExpressionRole, whereclause
+            )
             where_compiled = self.sql_compiler.process(
                 whereclause, include_table=False, literal_binds=True
             )
